@@ -35,7 +35,7 @@ fn usage() -> ! {
 
 fn default_runs(prop: Prop, tier: Tier) -> u64 {
     let q = match prop {
-        Prop::C01 => 500_000,
+        Prop::C01 => 2_000_000,
         Prop::C02 => 2_000_000,
         Prop::C03 => 2_000_000,
         Prop::C11 => 2_000_000,
@@ -132,6 +132,11 @@ fn main() {
             let tier = tier_of(&args.pos[2]);
             let seed = seed_from(&args);
             let runs: u64 = args.opts.get("runs").and_then(|s| s.parse().ok()).unwrap_or(512);
+            if let Some(only) = args.opts.get("only").and_then(|s| s.parse::<u64>().ok()) {
+                let r = generate(prop, seed, only, tier).exec(prop);
+                println!("{} {} {:016x}", prop.name(), only, r.digest);
+                return;
+            }
             for i in 0..runs {
                 let r = generate(prop, seed, i, tier).exec(prop);
                 println!("{} {} {:016x}", prop.name(), i, r.digest);
@@ -167,9 +172,28 @@ fn cmd_run(args: &Args) {
     let extra_violations: usize = args.opts.get("extra-violations").and_then(|s| s.parse().ok()).unwrap_or(0);
     let out = run_batch(prop, tier, seed, runs, threads, max_secs, &exclude);
 
+    let mut hidden_state_note: Option<String> = None;
     if let Some(i) = out.determinism_mismatch {
-        eprintln!("HARNESS ERROR: run {} produced two different trace digests for the same seed (nondeterminism in the simulator)", i);
-        std::process::exit(2);
+        // Two executions of run i in this process disagreed. If two fresh processes agree with
+        // each other, the simulator is deterministic and the library carries state from one
+        // call to later ones (thread-local / global); that is reported, not treated as a
+        // harness failure. The oracles judge every run on its own either way.
+        let fresh = |_: u8| {
+            std::process::Command::new(self_exe())
+                .args(["digests", prop.name(), if tier == Tier::Quick { "quick" } else { "thorough" }, "--seed", &seed.to_string(), "--only", &i.to_string()])
+                .output()
+                .map(|o| String::from_utf8_lossy(&o.stdout).to_string())
+                .unwrap_or_default()
+        };
+        let (a, b) = (fresh(0), fresh(1));
+        if !a.is_empty() && a == b {
+            let msg = format!("run {} gave different traces when executed twice in one process but identical traces in two fresh processes: the library keeps state between calls", i);
+            println!("NOTE: {}", msg);
+            hidden_state_note = Some(msg);
+        } else {
+            eprintln!("HARNESS ERROR: run {} produced two different trace digests for the same seed (nondeterminism in the simulator)", i);
+            std::process::exit(2);
+        }
     }
 
     // samples: the first few runs of this batch, written out
@@ -205,8 +229,20 @@ fn cmd_run(args: &Args) {
                 reported += 1;
             }
             Ok(false) => {
-                eprintln!("HARNESS ERROR: replay {} did not reproduce class {} in a fresh process", path.display(), class);
-                harness_error = true;
+                // The scenario alone does not fail in a fresh process: the failure depended on what
+                // the library had seen earlier on the same thread (state kept between calls).
+                // Replay the whole history of that worker thread, minimised.
+                match sequence_replay(prop, tier, seed, f, class) {
+                    Some((p2, msg)) => {
+                        println!("VIOLATION property={} replay={} class={} run={} :: {}", prop.name(), p2.display(), class, f.run, msg);
+                        exit_code = 1;
+                        reported += 1;
+                    }
+                    None => {
+                        eprintln!("HARNESS ERROR: replay {} did not reproduce class {} in a fresh process, nor did the history of its worker thread", path.display(), class);
+                        harness_error = true;
+                    }
+                }
             }
             Err(e) => {
                 eprintln!("HARNESS ERROR: could not re-execute replay: {}", e);
@@ -219,6 +255,9 @@ fn cmd_run(args: &Args) {
         println!("KNOWN-FINDING: property={} class={} hits={} e.g. {}", prop.name(), class, n, msg);
     }
     let mut ev = report::evidence_json(prop, tier, seed, &out, samples, reported + extra_violations, &known_lines);
+    if let Some(n) = &hidden_state_note {
+        ev["coverage"]["determinism"]["library_state_between_calls_suspected"] = json!(n);
+    }
     if !exclude.is_empty() {
         ev["coverage"]["runs_excluded_because_they_crashed_the_worker_process"] = json!(exclude);
     }
@@ -244,6 +283,55 @@ fn cmd_run(args: &Args) {
         std::process::exit(2);
     }
     std::process::exit(exit_code);
+}
+
+/// execute scenarios one after the other on one fresh thread; the violation of the last one, if it has `class`
+fn run_sequence(prop: Prop, scns: &[AnyScn], class: &str) -> Option<scenario::Violation> {
+    let (tx, rx) = std::sync::mpsc::channel();
+    let v: Vec<AnyScn> = scns.to_vec();
+    let cl = class.to_string();
+    std::thread::spawn(move || {
+        let mut last = None;
+        for s in &v {
+            let r = s.exec(prop);
+            last = r.violations.into_iter().find(|x| x.class == cl);
+        }
+        let _ = tx.send(last);
+    });
+    rx.recv_timeout(std::time::Duration::from_secs(20)).ok().flatten()
+}
+
+fn sequence_replay(prop: Prop, tier: Tier, seed: u64, f: &runner::Found, class: &str) -> Option<(PathBuf, String)> {
+    let mut scns: Vec<AnyScn> = f.prior.iter().map(|&i| generate(prop, seed, i, tier)).collect();
+    scns.push(generate(prop, seed, f.run, tier));
+    let mut v = run_sequence(prop, &scns, class)?;
+    // drop earlier scenarios while the last one still fails the same way
+    let mut k = 0;
+    let mut budget = 400;
+    while k + 1 < scns.len() && budget > 0 {
+        let mut c = scns.clone();
+        c.remove(k);
+        budget -= 1;
+        if let Some(nv) = run_sequence(prop, &c, class) {
+            scns = c;
+            v = nv;
+        } else {
+            k += 1;
+        }
+    }
+    let j = json!({
+        "kind": "sequence",
+        "property": prop.name(),
+        "scenarios": scns.iter().map(|s| s.to_json()).collect::<Vec<_>>(),
+        "violation": {"class": v.class, "message": v.msg, "op_index": v.op_index, "in_scenario": scns.len() - 1},
+        "found_by": {"VERIF_SEED": seed, "run": f.run, "tier": if tier == Tier::Quick {"quick"} else {"thorough"}, "profile": report::profile_name(), "minimised": true},
+        "note": "the scenarios are executed one after the other on one thread; the last one violates the property only after the earlier ones (the library keeps state between calls)",
+    });
+    let path = report::write_replay(prop, seed, f.run, &j);
+    match report::verify_in_fresh_process(&path, class) {
+        Ok(true) => Some((path, format!("after {} earlier scenario(s) on the same thread: {}", scns.len() - 1, v.msg))),
+        _ => None,
+    }
 }
 
 fn self_exe() -> PathBuf {
@@ -419,6 +507,29 @@ fn cmd_replay(args: &Args) {
         std::process::exit(2)
     });
     report::load_known(prop.name());
+    if v["kind"].as_str() == Some("sequence") {
+        let class = v["violation"]["class"].as_str().unwrap_or("").to_string();
+        let mut scns = vec![];
+        for sj in v["scenarios"].as_array().cloned().unwrap_or_default() {
+            match AnyScn::from_json(&sj) {
+                Ok(s) => scns.push(s),
+                Err(e) => {
+                    eprintln!("bad scenario in sequence: {}", e);
+                    std::process::exit(2)
+                }
+            }
+        }
+        match run_sequence(prop, &scns, &class) {
+            Some(viol) => {
+                println!("VIOLATION property={} replay={} class={} op={} :: {}", prop.name(), args.pos[1], viol.class, viol.op_index, viol.msg);
+                std::process::exit(1);
+            }
+            None => {
+                println!("no violation: property {} held on this sequence", prop.name());
+                std::process::exit(0);
+            }
+        }
+    }
     let scn = AnyScn::from_json(&v).unwrap_or_else(|e| {
         eprintln!("bad scenario: {}", e);
         std::process::exit(2)
